@@ -1,13 +1,51 @@
-"""Property id -> Prop instance."""
+"""Property id -> Prop instance, and the MANIFEST entries."""
 import importlib
 
+# id -> (module under harness.props, class, level text, level note, technique)
 _WHERE = {
-    "C02": ("escape", "C02"),
-    "C04": ("escape", "C04"),
+    "C02": ("escape", "C02",
+            "TLC checks, for every string over the 11-symbol metacharacter alphabet up to the bound, that the "
+            "code-shaped model of html_escape satisfies the property-level matcher (each special replaced by SOME "
+            "reference decoding to it, everything else unchanged); the same matcher, evaluated by TLC, judges what "
+            "the real library emitted for TLC-enumerated strings in every child-placement shape, for every Unicode "
+            "code point, for seeded random strings and for every tag function of the catalogue.",
+            "Trusted: TLC/SANY, the Match/Decode operators of spec/EscapeOps.tla, the marker-based location of a "
+            "leaf's segment in the output, CPython. The transcription Escape() is not trusted (drift only).",
+            "TLA+ spec (Escape) model-checked with TLC; TLC-enumerated inputs replayed into the code; recorded "
+            "outputs validated by TLC trace spec (EscapeTrace)"),
+    "C04": ("escape", "C04",
+            "TLC enumerates every HTML()/str/object expression tree up to the bound and checks the dispatch model "
+            "(result is HTML iff an operand is; each plain operand escaped exactly once); each tree is evaluated with "
+            "the real operators on hostile payloads and the rendered result is judged by TLC against the "
+            "property-level piece matcher; trusted leaves (HTML(), _repr_html_, script/style text, HTML() attribute "
+            "values) are checked verbatim in every placement shape.",
+            "Trusted: TLC/SANY, Match and Leaves/HasH in the spec, marker-based segment location, CPython.",
+            "TLA+ spec (HtmlStr) model-checked with TLC; TLC-enumerated expressions replayed into the code; recorded "
+            "renderings validated by TLC trace spec (EscapeTrace)"),
 }
+
+NOT_YET = {}
 
 
 def get_prop(pid: str):
-    mod, cls = _WHERE[pid]
+    mod, cls = _WHERE[pid][:2]
     m = importlib.import_module(f"harness.props.{mod}")
     return getattr(m, cls)()
+
+
+def manifest_checks():
+    out = []
+    for pid in sorted(_WHERE):
+        mod, cls, text, note, tech = _WHERE[pid]
+        out.append({
+            "property_id": pid,
+            "quick_cmd": f"bin/check {pid} --tier quick",
+            "thorough_cmd": f"bin/check {pid} --tier thorough",
+            "evidence_file": f"/verif/evidence/{pid}.json",
+            "replay_cmd_template": "bin/check --replay {path}",
+            "engine": "tlc",
+            "level_claimed": {"category": "model_checking", "text": text, "design_ref": f"DESIGN.md section 3, {pid}"},
+            "level_note": note,
+            "technique": tech,
+        })
+    return out
